@@ -7,6 +7,7 @@ package main
 
 import (
 	"encoding/base64"
+	"encoding/json"
 	"fmt"
 	"net/http"
 	"net/http/httptest"
@@ -40,7 +41,7 @@ var (
 	grantV    = []string{"authorization_code", "refresh_token", "client_credentials", string(oidc.GrantTypeBearer),
 		string(oidc.GrantTypeTokenExchange), string(oidc.GrantTypeDeviceCode), "implicit", "password", ""}
 	grantT = []string{"code", "refresh", "client_credentials", "jwt_bearer", "token_exchange", "device_code", "implicit", "unknown", "missing"}
-	secN   = []string{"SRight", "SWrong", "SEmpty"}
+	secN   = []string{"SRight", "SWrong", "SEmpty", "SBlank", "SNear"}
 	assN   = []string{"AOk", "AWrongKey", "AWrongAud"}
 )
 
@@ -78,14 +79,120 @@ const (
 	pAssertTypeOnly  // client_id + client_assertion_type, no client_assertion
 	pAssertNoType    // valid client_assertion, no client_assertion_type
 	pAssertWrongType // valid client_assertion, another client_assertion_type
+	// a near miss of X's id (surrounding white space, other case, ...) with a secret, in the Basic header or in the form
+	pNearID
 )
+
+const (
+	sRight = iota
+	sWrong
+	sEmpty
+	sBlank // white space only
+	sNear  // near miss of the right secret
+)
+
+// ---------------------------------------------------------------- concrete strings behind the abstract kinds
+//
+// The model knows a secret as right / wrong / empty / blank / near miss and an id as X's or a near miss of it;
+// the driver varies the concrete string (form) and how it is encoded on the wire.
+
+type strForm struct {
+	Name string
+	F    func(right string) string
+}
+
+func lit(s string) func(string) string { return func(string) string { return s } }
+
+// fold replaces letters by their Unicode case-fold twins (U+017F long s, U+212A Kelvin sign): equal under
+// strings.EqualFold, different byte strings. Falls back to upper-casing when the string has neither letter.
+func fold(s string) string {
+	t := strings.NewReplacer("s", "\u017f", "k", "\u212a").Replace(s)
+	if t == s {
+		t = strings.ToUpper(s)
+	}
+	return t
+}
+
+// white space only (every string is trimmed to "" by strings.TrimSpace)
+var blankForms = []strForm{{"sp", lit(" ")}, {"tab", lit("\t")}, {"lf", lit("\n")}, {"crlf", lit("\r\n")}, {"sp3", lit("   ")},
+	{"mix", lit(" \t\r\n")}, {"nbsp", lit("\u00a0")}, {"vtff", lit("\v\f")}, {"emsp", lit("\u2003")}, {"nel", lit("\u0085")}}
+
+// near misses of a given string: equal to it after trimming / case folding / cutting at a fixed length, never equal byte by byte
+var nearForms = []strForm{
+	{"trail_sp", func(r string) string { return r + " " }}, {"lead_sp", func(r string) string { return " " + r }},
+	{"trail_lf", func(r string) string { return r + "\n" }}, {"trail_crlf", func(r string) string { return r + "\r\n" }},
+	{"lead_lf", func(r string) string { return "\n" + r }}, {"tabs", func(r string) string { return "\t" + r + "\t" }},
+	{"trail_nbsp", func(r string) string { return r + "\u00a0" }}, {"upper", strings.ToUpper}, {"fold", fold},
+	{"slash", func(r string) string { return r + "/" }}, {"drop_last", func(r string) string { return r[:len(r)-1] }},
+	{"extend", func(r string) string { return r + "x" }}, {"nul", func(r string) string { return r + "\x00" }},
+}
+
+// plain wrong secrets, among them the keyword-like literals and an over-long one
+var wrongForms = []strForm{{"wrong", lit("wrong-secret")}, {"null", lit("null")}, {"NULL", lit("NULL")}, {"nil", lit("nil")},
+	{"undefined", lit("undefined")}, {"true", lit("true")}, {"false", lit("false")}, {"zero", lit("0")}, {"brackets", lit("[]")},
+	{"braces", lit("{}")}, {"long5k", lit(strings.Repeat("w", 5000))}}
+
+// near misses of an id: those of nearForms, white space only, keyword-like literals
+var idForms = append(append([]strForm{}, nearForms...), strForm{"blank", lit(" ")}, strForm{"null", lit("null")}, strForm{"undefined", lit("undefined")})
+
+// near misses of a grant_type value
+var grantForms = []strForm{{"upper", strings.ToUpper}, {"lead_sp", func(r string) string { return " " + r }},
+	{"trail_sp", func(r string) string { return r + " " }}, {"trail_lf", func(r string) string { return r + "\n" }},
+	{"fold", fold}, {"drop_last", func(r string) string { return r[:len(r)-1] }}, {"slash", func(r string) string { return r + "/" }},
+	{"null", lit("null")}, {"undefined", lit("undefined")}, {"title", func(r string) string { return strings.ToUpper(r[:1]) + r[1:] }}}
+
+// audiences that are not the issuer: another host, near misses of the issuer
+var audForms = append([]strForm{{"other", lit("https://other.example.com")}}, nearForms[:12]...)
+
+// client_assertion_type values that are not the jwt-bearer urn
+var atypeForms = []strForm{{"saml2", lit("urn:ietf:params:oauth:client-assertion-type:saml2-bearer")}, {"upper", strings.ToUpper},
+	{"trail_sp", func(r string) string { return r + " " }}, {"lead_sp", func(r string) string { return " " + r }}, {"drop_last", func(r string) string { return r[:len(r)-1] }}}
+
+func formsOf(kind int) []strForm {
+	switch kind {
+	case sWrong:
+		return wrongForms
+	case sBlank:
+		return blankForms
+	case sNear:
+		return nearForms
+	}
+	return nil
+}
+
+// secretString: the concrete secret of an abstract kind in the form with index f (taken modulo the number of forms)
+func secretString(kind, f int, right string) (string, string) {
+	switch kind {
+	case sRight:
+		return right, "right"
+	case sEmpty:
+		return "", "empty"
+	}
+	fs := formsOf(kind)
+	x := fs[f%len(fs)]
+	return x.F(right), strings.ToLower(secN[kind][1:]) + "_" + x.Name
+}
+
+// wire encodings of a Basic user / password and of a form value
+var encT = []string{"raw", "pct", "plus"} // Basic: as is / every byte %XX / url.QueryEscape (space as "+")
+var fencT = []string{"std", "pct", "rawbody"} // form: url.QueryEscape / every byte %XX / as is (request body only)
+
+func wire(s string, enc int) string {
+	switch enc {
+	case 1:
+		return pctAll(s)
+	case 2:
+		return url.QueryEscape(s)
+	}
+	return s
+}
 
 func isCross(k int) bool { return k >= pXBasic && k <= pXDup }
 
 var partialN = map[int]string{pAssertTypeOnly: "PAssertTypeOnly", pAssertNoType: "PAssertNoType", pAssertWrongType: "PAssertWrongType"}
 var partialT = map[int]string{pAssertTypeOnly: "assertion_type_only", pAssertNoType: "assertion_no_type", pAssertWrongType: "assertion_wrong_type"}
-var prevN = []string{"NoPrev", "PrevAssert", "PrevBasic", "PrevPost"}
-var prevT = []string{"none", "assertion", "basic", "post"}
+var prevN = []string{"NoPrev", "PrevAssert", "PrevBasic", "PrevPost", "PrevSelf"}
+var prevT = []string{"none", "assertion", "basic", "post", "self"}
 
 var crossN = map[int]string{pXBasic: "PXBasic", pXAssert: "PXAssert", pXPost: "PXPost", pXPostID: "PXPostId", pXDup: "PXDup"}
 var crossT = map[int]string{pXBasic: "cross_basic", pXAssert: "cross_assertion", pXPost: "cross_post_basic_other", pXPostID: "cross_post_other_id", pXDup: "cross_dup_client_id"}
@@ -116,6 +223,13 @@ type presT struct {
 	Kind  int
 	B, P  int  // secret kinds (basic / post)
 	Pct   bool // basic credentials percent-encoded byte by byte
+	Enc   int  // wire encoding of the Basic credentials (index of encT); Pct = Enc 1
+	FEnc  int  // wire encoding of client_id / client_secret in the form (index of fencT)
+	BF    int  // concrete form of the Basic secret within its kind (index modulo the list of forms)
+	PF    int  // ... of the form secret
+	Slot  int  // pNearID: 0 = Basic header, 1 = form, 2 = issuer of the client assertion
+	AF    int  // concrete form of a wrong assertion audience / of a wrong client_assertion_type (index modulo the forms)
+	IDF   int  // pNearID: concrete form of the id (index modulo idForms)
 	BadID bool // malformed escape sits in the id part (else in the secret)
 	A     int  // assertion kind
 	VM    int  // cross-client kinds: auth method the second client Y is registered with
@@ -130,7 +244,10 @@ type caseT struct {
 	Pres     presT
 	Grant    int
 	Pl       plT
-	Prev     int    // 0 = first request on the fixture state; 1..3 = preceded by a fully credentialed request of a third client
+	Prev     int    // 0 = first request on the fixture state; 1..3 = preceded by a fully credentialed request of a third client; 4 = by X's own
+	GForm    int    // Grant == gUnknown: 0 = "password"; n > 0: grantForms[n-1] of the grant GBase, whose artefact the request carries
+	GBase    int
+	SecKind  int    // how the stored secret of a secret-registered client looks (index of secKindT)
 	Tag      string // extra tag for directed cases
 }
 
@@ -153,7 +270,7 @@ func (p presT) coq() string {
 	case pIDOnly:
 		return "PIdOnly"
 	case pBasic:
-		return emit.Ctor("PBasic", secN[p.B], emit.Bool(p.Pct))
+		return emit.Ctor("PBasic", secN[p.B], emit.Bool(p.enc() != 0))
 	case pBasicBadEsc:
 		return "PBasicBadEsc"
 	case pPost:
@@ -164,6 +281,8 @@ func (p presT) coq() string {
 		return emit.Ctor("PBoth", secN[p.B], secN[p.P])
 	case pAssertTypeOnly, pAssertNoType, pAssertWrongType:
 		return partialN[p.Kind]
+	case pNearID:
+		return emit.Ctor("PNearId", []string{"IdBasic", "IdForm", "IdAssert"}[p.Slot], secN[p.B])
 	}
 	return emit.Ctor(crossN[p.Kind], emit.Ctor("mkV", methN[p.VM], emit.Bool(p.VG)))
 }
@@ -175,10 +294,12 @@ func (p presT) tag() string {
 		return "id_only"
 	case pBasic:
 		s := "basic_" + strings.ToLower(secN[p.B][1:])
-		if p.Pct {
+		if p.enc() != 0 {
 			s += "_pct"
 		}
 		return s
+	case pNearID:
+		return "near_id_" + []string{"basic", "form", "assertion"}[p.Slot] + "_" + strings.ToLower(secN[p.B][1:])
 	case pBasicBadEsc:
 		return "basic_bad_escape"
 	case pPost:
@@ -192,6 +313,44 @@ func (p presT) tag() string {
 	}
 	return "both_" + strings.ToLower(secN[p.B][1:]) + "_" + strings.ToLower(secN[p.P][1:])
 }
+func (p presT) enc() int {
+	if p.Enc == 0 && p.Pct {
+		return 1
+	}
+	return p.Enc
+}
+
+// formTags: the concrete strings and encodings behind the abstract presentation
+func (p presT) formTags() []string {
+	var t []string
+	basic := p.Kind == pBasic || p.Kind == pBoth || p.Kind == pNearID && p.Slot == 0
+	post := p.Kind == pPost || p.Kind == pBoth || p.Kind == pNearID && p.Slot == 1
+	if basic {
+		_, n := secretString(p.B, p.BF, "x")
+		t = append(t, "basic_secret="+n, "basic_enc="+encT[p.enc()])
+	}
+	if post {
+		k, f := p.P, p.PF
+		if p.Kind == pNearID {
+			k, f = p.B, p.BF
+		}
+		_, n := secretString(k, f, "x")
+		t = append(t, "form_secret="+n, "form_enc="+fencT[p.FEnc])
+	}
+	if p.Kind == pNearID {
+		t = append(t, "id_form="+idForms[p.IDF%len(idForms)].Name)
+	}
+	if p.Kind == pAssert && p.A == 2 {
+		t = append(t, "aud_form="+audForms[p.AF%len(audForms)].Name)
+	}
+	if p.Kind == pAssertWrongType {
+		t = append(t, "atype_form="+atypeForms[p.AF%len(atypeForms)].Name)
+	}
+	return t
+}
+
+var secKindT = []string{"plain", "len1024", "len4096", "len4100", "padded", "specials"}
+
 func (c caseT) coq() string {
 	return emit.Ctor("mkInput", routerN[c.Router], endpointN[c.Endpoint], c.Cfg.coq(), c.Reg.coq(), c.Pres.coq(), grantN[c.Grant], c.Pl.coq(), prevN[c.Prev])
 }
@@ -222,6 +381,13 @@ func (c caseT) tags() []string {
 		t = append(t, "pl_grant="+gplaceT[c.Pl.Grant])
 	}
 	t = append(t, "prev="+prevT[c.Prev])
+	t = append(t, c.Pres.formTags()...)
+	if c.Reg.Meth < 2 {
+		t = append(t, "stored_secret="+secKindT[c.SecKind])
+	}
+	if c.Endpoint == eToken && c.Grant == gUnknown && c.GForm > 0 {
+		t = append(t, "grant_form="+grantT[c.GBase]+"_"+grantForms[c.GForm-1].Name)
+	}
 	if isCross(c.Pres.Kind) {
 		t = append(t, "victim="+strings.ToLower(methN[c.Pres.VM][1:]), "victim_grants="+onoff(c.Pres.VG))
 	}
@@ -274,8 +440,11 @@ func signAssertion(key any, iss string, aud []string) string {
 		panic(err)
 	}
 	now := time.Now()
-	payload := fmt.Sprintf(`{"iss":%q,"sub":%q,"aud":[%q],"iat":%d,"exp":%d}`, iss, iss, aud[0], now.Add(-time.Second).Unix(), now.Add(time.Hour).Unix())
-	jws, err := signer.Sign([]byte(payload))
+	payload, err := json.Marshal(map[string]any{"iss": iss, "sub": iss, "aud": aud, "iat": now.Add(-time.Second).Unix(), "exp": now.Add(time.Hour).Unix()})
+	if err != nil {
+		panic(err)
+	}
+	jws, err := signer.Sign(payload)
 	if err != nil {
 		panic(err)
 	}
@@ -304,15 +473,43 @@ type outcome struct {
 	PollOther, PollSelf bool
 }
 
+// storedSecret: the secret registered for a secret-registered client, by kind (secKindT)
+func storedSecret(id string, kind int) string {
+	base := "sec-" + id
+	long := func(n int) string {
+		var sb strings.Builder
+		sb.WriteString(base + "-")
+		for i := 0; sb.Len() < n; i++ {
+			sb.WriteByte("abcdefghijklmnopqrstuvwxyz0123456789"[i*7%36])
+		}
+		return sb.String()
+	}
+	switch kind {
+	case 1:
+		return long(1024)
+	case 2:
+		return long(4096)
+	case 3:
+		return long(4100)
+	case 4:
+		return " \t" + base + " \n" // white space is part of the registered secret
+	case 5:
+		return base + " +%&=:/?#s"
+	}
+	return base
+}
+
+var selfPrimerOK, selfPrimers int // X's own priming requests answered 2xx / sent
+
 // run prepares the grant artefacts of one case in the store, sends the request and projects the answer.
 func run(c caseT) outcome {
 	w := worldOf(c.Cfg)
 	w.n++
 	st := w.st
-	id := fmt.Sprintf("c%d", w.n)
-	secret := "sec-" + id
-	stored := secret
+	id := fmt.Sprintf("cks%d", w.n) // has letters with Unicode case-fold twins
 	hasSecret := c.Reg.Meth == 0 || c.Reg.Meth == 1
+	secret := storedSecret(id, c.SecKind)
+	stored := secret
 	if !hasSecret {
 		stored = ""             // refstore contract: AuthorizeClientIDSecret(id, "") succeeds for a client without a secret
 		secret = "decoy-secret" // what "the right secret" means for a client that has none
@@ -355,86 +552,102 @@ func run(c caseT) outcome {
 		st.Clients[id] = cl
 	}
 	now := time.Now()
-	form := url.Values{}
+	// the grant whose artefact the request carries, and the grant_type string it sends
+	artGrant, grantStr := c.Grant, grantV[c.Grant]
+	if c.Endpoint == eToken && c.Grant == gUnknown && c.GForm > 0 {
+		artGrant = c.GBase
+		grantStr = grantForms[c.GForm-1].F(grantV[c.GBase])
+		if grantStr == grantV[c.GBase] {
+			grantStr = strings.ToUpper(grantStr)
+		}
+	}
+	// every place X's id is sent in carries the near miss
+	sentID := id
+	if c.Pres.Kind == pNearID {
+		sentID = idForms[c.Pres.IDF%len(idForms)].F(id)
+	}
 	path := ""
+	// artefact prepares an otherwise valid grant artefact named by sfx for the client own and returns its parameters
+	artefact := func(sfx, own, iss string) url.Values {
+		form := url.Values{}
+		rt := "rt-" + sfx
+		newRefresh := func() {
+			st.Refresh[rt] = &refstore.RefreshToken{ID: rt, ClientID: own, Subject: "alice", Audience: []string{own}, Scopes: []string{"openid"},
+				AMR: []string{"pwd"}, AuthTime: now.Add(-time.Minute).Truncate(time.Second), Expiration: now.Add(time.Hour)}
+		}
+		switch c.Endpoint {
+		case eToken:
+			path = "/oauth/token"
+			switch artGrant {
+			case gCode:
+				rid := "req-" + sfx
+				st.AuthReqs[rid] = &refstore.AuthRequest{ID: rid, ClientID: own, RedirectURI: redirectURI, Scopes: []string{"openid"},
+					ResponseType: oidc.ResponseTypeCode, Subject: "alice", IsDone: true, AuthTime: now.Add(-time.Minute).Truncate(time.Second),
+					CodeChallenge: &oidc.CodeChallenge{Challenge: opfix.S256(verifier), Method: oidc.CodeChallengeMethodS256}, Nonce: "n"}
+				st.Codes["code-"+sfx] = rid
+				form.Set("code", "code-"+sfx)
+				form.Set("redirect_uri", redirectURI)
+				form.Set("code_verifier", verifier)
+			case gRefresh:
+				newRefresh()
+				form.Set("refresh_token", rt)
+			case gCC:
+				form.Set("scope", "openid")
+			case gBearer:
+				form.Set("assertion", signAssertion(rightKey, iss, []string{opfix.Issuer}))
+				form.Set("scope", "openid")
+			case gTE:
+				newRefresh()
+				form.Set("subject_token", rt)
+				form.Set("subject_token_type", string(oidc.RefreshTokenType))
+			case gDevice:
+				dc, uc := "dc-"+sfx, "UC-"+sfx
+				st.Devices[dc] = &refstore.Device{DeviceCode: dc, UserCode: uc, State: &op.DeviceAuthorizationState{ClientID: own, Scopes: []string{"openid"},
+					Expires: now.Add(time.Hour), Done: true, Subject: "alice", AMR: []string{"pwd"}, AuthTime: now.Add(-time.Minute).Truncate(time.Second)}}
+				st.UserCode[uc] = dc
+				form.Set("device_code", dc)
+			}
+		case eIntrospect:
+			path = "/oauth/introspect"
+			at := "at-" + sfx
+			st.Tokens[at] = &refstore.Token{ID: at, ClientID: own, Subject: "alice", Audience: []string{own}, Scopes: []string{"openid"}, Expiration: now.Add(time.Hour)}
+			tok, err := w.f.Provider.Crypto().Encrypt(at + ":alice")
+			if err != nil {
+				panic(err)
+			}
+			form.Set("token", tok)
+		case eRevoke:
+			path = "/revoke"
+			newRefresh()
+			form.Set("token", rt)
+		case eDeviceAuthz:
+			path = "/device_authorization"
+			form.Set("scope", "openid")
+		}
+		return form
+	}
+	form := artefact(id, owner, sentID)
 	rt := "rt-" + id
-	newRefresh := func() {
-		st.Refresh[rt] = &refstore.RefreshToken{ID: rt, ClientID: owner, Subject: "alice", Audience: []string{owner}, Scopes: []string{"openid"},
-			AMR: []string{"pwd"}, AuthTime: now.Add(-time.Minute).Truncate(time.Second), Expiration: now.Add(time.Hour)}
-	}
-	switch c.Endpoint {
-	case eToken:
-		path = "/oauth/token"
-		switch c.Grant {
-		case gCode:
-			rid := "req-" + id
-			st.AuthReqs[rid] = &refstore.AuthRequest{ID: rid, ClientID: owner, RedirectURI: redirectURI, Scopes: []string{"openid"},
-				ResponseType: oidc.ResponseTypeCode, Subject: "alice", IsDone: true, AuthTime: now.Add(-time.Minute).Truncate(time.Second),
-				CodeChallenge: &oidc.CodeChallenge{Challenge: opfix.S256(verifier), Method: oidc.CodeChallengeMethodS256}, Nonce: "n"}
-			st.Codes["code-"+id] = rid
-			form.Set("code", "code-"+id)
-			form.Set("redirect_uri", redirectURI)
-			form.Set("code_verifier", verifier)
-		case gRefresh:
-			newRefresh()
-			form.Set("refresh_token", rt)
-		case gCC:
-			form.Set("scope", "openid")
-		case gBearer:
-			form.Set("assertion", signAssertion(rightKey, id, []string{opfix.Issuer}))
-			form.Set("scope", "openid")
-		case gTE:
-			newRefresh()
-			form.Set("subject_token", rt)
-			form.Set("subject_token_type", string(oidc.RefreshTokenType))
-		case gDevice:
-			dc, uc := "dc-"+id, "UC-"+id
-			st.Devices[dc] = &refstore.Device{DeviceCode: dc, UserCode: uc, State: &op.DeviceAuthorizationState{ClientID: owner, Scopes: []string{"openid"},
-				Expires: now.Add(time.Hour), Done: true, Subject: "alice", AMR: []string{"pwd"}, AuthTime: now.Add(-time.Minute).Truncate(time.Second)}}
-			st.UserCode[uc] = dc
-			form.Set("device_code", dc)
-		}
-	case eIntrospect:
-		path = "/oauth/introspect"
-		at := "at-" + id
-		st.Tokens[at] = &refstore.Token{ID: at, ClientID: owner, Subject: "alice", Audience: []string{owner}, Scopes: []string{"openid"}, Expiration: now.Add(time.Hour)}
-		tok, err := w.f.Provider.Crypto().Encrypt(at + ":alice")
-		if err != nil {
-			panic(err)
-		}
-		form.Set("token", tok)
-	case eRevoke:
-		path = "/revoke"
-		newRefresh()
-		form.Set("token", rt)
-	case eDeviceAuthz:
-		path = "/device_authorization"
-		form.Set("scope", "openid")
-	}
 
 	// presentation
 	cform := url.Values{}
 	dupQueryID := ""
 	basicID, basicSec, useBasic := "", "", false
-	sec := func(k int) string {
-		switch k {
-		case 0:
-			return secret
-		case 1:
-			return "wrong-secret"
-		}
-		return ""
+	benc := c.Pres.enc()
+	if c.SecKind >= 4 && benc == 0 {
+		benc = 1 // a secret with "+" or "%" in it must be encoded in the Basic header
+	}
+	sec := func(k, f int) string {
+		s, _ := secretString(k, f, secret)
+		return s
 	}
 	switch c.Pres.Kind {
 	case pIDOnly:
 		cform.Set("client_id", id)
 	case pBasic:
-		basicID, basicSec, useBasic = id, sec(c.Pres.B), true
-		if c.Pres.Pct {
-			basicID, basicSec = pctAll(basicID), pctAll(basicSec)
-		}
+		basicID, basicSec, useBasic = wire(id, benc), wire(sec(c.Pres.B, c.Pres.BF), benc), true
 	case pBasicBadEsc:
-		basicID, basicSec, useBasic = id, secret, true
+		basicID, basicSec, useBasic = id, wire(secret, benc), true
 		if c.Pres.BadID {
 			basicID += "%zz"
 		} else {
@@ -442,7 +655,18 @@ func run(c caseT) outcome {
 		}
 	case pPost:
 		cform.Set("client_id", id)
-		cform.Set("client_secret", sec(c.Pres.P))
+		cform.Set("client_secret", sec(c.Pres.P, c.Pres.PF))
+	case pNearID:
+		switch c.Pres.Slot {
+		case 0:
+			basicID, basicSec, useBasic = wire(sentID, benc), wire(sec(c.Pres.B, c.Pres.BF), benc), true
+		case 1:
+			cform.Set("client_id", sentID)
+			cform.Set("client_secret", sec(c.Pres.B, c.Pres.BF))
+		default:
+			cform.Set("client_assertion_type", oidc.ClientAssertionTypeJWTAssertion)
+			cform.Set("client_assertion", signAssertion(rightKey, sentID, []string{opfix.Issuer}))
+		}
 	case pAssert:
 		cform.Set("client_assertion_type", oidc.ClientAssertionTypeJWTAssertion)
 		switch c.Pres.A {
@@ -451,14 +675,14 @@ func run(c caseT) outcome {
 		case 1:
 			cform.Set("client_assertion", signAssertion(otherKey, id, []string{opfix.Issuer}))
 		default:
-			cform.Set("client_assertion", signAssertion(rightKey, id, []string{"https://other.example.com"}))
+			cform.Set("client_assertion", signAssertion(rightKey, id, []string{audForms[c.Pres.AF%len(audForms)].F(opfix.Issuer)}))
 		}
 	case pBoth:
-		basicID, basicSec, useBasic = id, sec(c.Pres.B), true
+		basicID, basicSec, useBasic = wire(id, benc), wire(sec(c.Pres.B, c.Pres.BF), benc), true
 		cform.Set("client_id", id)
-		cform.Set("client_secret", sec(c.Pres.P))
+		cform.Set("client_secret", sec(c.Pres.P, c.Pres.PF))
 	case pXBasic:
-		basicID, basicSec, useBasic = id, secret, true
+		basicID, basicSec, useBasic = id, wire(secret, benc), true
 		cform.Set("client_id", vid)
 	case pXAssert:
 		cform.Set("client_assertion_type", oidc.ClientAssertionTypeJWTAssertion)
@@ -482,7 +706,7 @@ func run(c caseT) outcome {
 		cform.Set("client_assertion", signAssertion(rightKey, id, []string{opfix.Issuer}))
 	case pAssertWrongType:
 		cform.Set("client_assertion", signAssertion(rightKey, id, []string{opfix.Issuer}))
-		cform.Set("client_assertion_type", "urn:ietf:params:oauth:client-assertion-type:saml2-bearer")
+		cform.Set("client_assertion_type", atypeForms[c.Pres.AF%len(atypeForms)].F(oidc.ClientAssertionTypeJWTAssertion))
 	}
 	// placement
 	body, query := url.Values{}, url.Values{}
@@ -498,6 +722,26 @@ func run(c caseT) outcome {
 	} else {
 		put(query, form)
 	}
+	// client_id / client_secret in another wire encoding than url.Values.Encode's are appended by hand
+	fenc := c.Pres.FEnc
+	if fenc == 2 && c.Pl.Client != 0 {
+		fenc = 0 // raw bytes only in the request body
+	}
+	handMade := ""
+	if fenc != 0 {
+		for _, k := range []string{"client_id", "client_secret"} {
+			if vs, ok := cform[k]; ok {
+				v := vs[0]
+				if fenc == 1 {
+					v = pctAll(v)
+				} else if strings.ContainsAny(v, "&=+%;") {
+					v = url.QueryEscape(v)
+				}
+				handMade += "&" + k + "=" + v
+				delete(cform, k)
+			}
+		}
+	}
 	if c.Pl.Client == 0 {
 		put(body, cform)
 	} else {
@@ -507,7 +751,7 @@ func run(c caseT) outcome {
 		query.Add("client_id", dupQueryID) // after X's id when that travels in the query too
 	}
 	if c.Endpoint == eToken && c.Grant != gMissing {
-		g := grantV[c.Grant]
+		g := grantStr
 		switch c.Pl.Grant {
 		case 0:
 			body.Set("grant_type", g)
@@ -525,12 +769,18 @@ func run(c caseT) outcome {
 			query.Set("grant_type", alt)
 		}
 	}
+	bodyStr, queryStr := body.Encode(), query.Encode()
+	if c.Pl.Client == 0 {
+		bodyStr = strings.TrimPrefix(bodyStr+handMade, "&")
+	} else {
+		queryStr = strings.TrimPrefix(queryStr+handMade, "&")
+	}
 	target := opfix.Issuer + path
-	if len(query) > 0 {
-		target += "?" + query.Encode()
+	if queryStr != "" {
+		target += "?" + queryStr
 	}
 
-	req := httptest.NewRequest(http.MethodPost, target, strings.NewReader(body.Encode()))
+	req := httptest.NewRequest(http.MethodPost, target, strings.NewReader(bodyStr))
 	req.Header.Set("Content-Type", "application/x-www-form-urlencoded")
 	if useBasic {
 		req.Header.Set("Authorization", "Basic "+base64.StdEncoding.EncodeToString([]byte(basicID+":"+basicSec)))
@@ -538,7 +788,7 @@ func run(c caseT) outcome {
 	// sequence: the same provider instance first serves an introspection request of a third client P
 	// that carries P's full credential
 	pid := "p" + id
-	if c.Prev > 0 {
+	if c.Prev > 0 && c.Prev < 4 {
 		pc := &refstore.Client{ID: pid, Secret: "sec-" + pid, App: op.ApplicationTypeWeb, Auth: oidc.AuthMethodBasic, ATType: op.AccessTokenTypeBearer,
 			Keys: map[string]*jose.JSONWebKey{"k1": {Key: &rightKey.PublicKey, KeyID: "k1", Algorithm: "ES256", Use: "sig"}}}
 		st.Clients[pid] = pc
@@ -571,6 +821,46 @@ func run(c caseT) outcome {
 			primerFailed++
 		}
 	}
+	// ... or X's own request on the same endpoint and grant: the full credential of its registered method (everything in
+	// the request body) and an artefact of its own. Whatever a handler keeps from it (a pooled request struct, a cached
+	// client or credential) is X's, so the case's request - which may omit or garble the credential - follows it directly.
+	if c.Prev == 4 {
+		pf := artefact(id+"-0", id, id)
+		if c.Endpoint == eToken && c.Grant != gMissing {
+			pf.Set("grant_type", grantV[artGrant])
+		}
+		var basic []string
+		switch c.Reg.Meth {
+		case 0:
+			basic = []string{url.QueryEscape(id), url.QueryEscape(secret)}
+		case 1:
+			pf.Set("client_id", id)
+			pf.Set("client_secret", secret)
+		case 2:
+			pf.Set("client_assertion_type", oidc.ClientAssertionTypeJWTAssertion)
+			pf.Set("client_assertion", signAssertion(rightKey, id, []string{opfix.Issuer}))
+		default:
+			pf.Set("client_id", id)
+		}
+		rq := httptest.NewRequest(http.MethodPost, opfix.Issuer+path, strings.NewReader(pf.Encode()))
+		rq.Header.Set("Content-Type", "application/x-www-form-urlencoded")
+		if basic != nil {
+			rq.SetBasicAuth(basic[0], basic[1])
+		}
+		pr := opfix.Do(w.f.Handlers[c.Router], rq)
+		selfPrimers++
+		if pr.Status >= 200 && pr.Status < 300 {
+			selfPrimerOK++
+		}
+	}
+	// what exists before the case's request: only what it creates counts as its doing
+	tokensBefore, devicesBefore := map[string]bool{}, map[string]bool{}
+	for tid := range st.Tokens {
+		tokensBefore[tid] = true
+	}
+	for dcode := range st.Devices {
+		devicesBefore[dcode] = true
+	}
 	resp := opfix.Do(w.f.Handlers[c.Router], req)
 
 	o := outcome{Status: resp.Status, Panic: resp.Panic, Writes: resp.Writes, Body: resp.Body}
@@ -596,7 +886,7 @@ func run(c caseT) outcome {
 	// whom did the answer act for: the owner of a token or device code it created, of the token it
 	// revoked, of the token it reported active
 	for tid, t := range st.Tokens {
-		if tid != "at-"+id && tid != "at-"+pid {
+		if !tokensBefore[tid] {
 			o.Who = t.ClientID
 			if o.Who == "" {
 				o.Who = t.Subject // jwt-bearer: the token belongs to the assertion's issuer
@@ -604,7 +894,7 @@ func run(c caseT) outcome {
 		}
 	}
 	for dcode, d := range st.Devices {
-		if dcode != "dc-"+id {
+		if !devicesBefore[dcode] {
 			o.Who = d.State.ClientID
 			// follow the device flow to its end: the user approves, then the client the request named in its body
 			// (Y, with nothing but its id) and the client that authenticated (X, with the credential of its
@@ -627,9 +917,9 @@ func run(c caseT) outcome {
 			}
 			switch c.Reg.Meth {
 			case 0:
-				o.PollSelf = poll(url.Values{}, []string{id, "sec-" + id})
+				o.PollSelf = poll(url.Values{}, []string{url.QueryEscape(id), url.QueryEscape(secret)})
 			case 1:
-				o.PollSelf = poll(url.Values{"client_id": {id}, "client_secret": {"sec-" + id}}, nil)
+				o.PollSelf = poll(url.Values{"client_id": {id}, "client_secret": {secret}}, nil)
 			case 2:
 				o.PollSelf = poll(url.Values{"client_assertion_type": {oidc.ClientAssertionTypeJWTAssertion},
 					"client_assertion": {signAssertion(rightKey, id, []string{opfix.Issuer})}}, nil)
@@ -698,12 +988,17 @@ func (o outcome) coq() string {
 
 func allPres() []presT {
 	ps := []presT{{Kind: pNone}, {Kind: pIDOnly}, {Kind: pBasicBadEsc}, {Kind: pBasicBadEsc, BadID: true}}
-	for s := 0; s < 3; s++ {
+	for s := 0; s < 5; s++ {
 		ps = append(ps, presT{Kind: pBasic, B: s}, presT{Kind: pBasic, B: s, Pct: true}, presT{Kind: pPost, P: s})
-		for s2 := 0; s2 < 3; s2++ {
+		for s2 := 0; s2 < 5; s2++ {
+			if (s > sEmpty || s2 > sEmpty) && s != s2 && s != sRight && s2 != sRight {
+				continue // blank / near-miss secrets are paired with themselves and with the right secret
+			}
 			ps = append(ps, presT{Kind: pBoth, B: s, P: s2})
 		}
+		ps = append(ps, presT{Kind: pNearID, Slot: 0, B: s}, presT{Kind: pNearID, Slot: 1, B: s})
 	}
+	ps = append(ps, presT{Kind: pNearID, Slot: 2, B: sEmpty})
 	ps = append(ps, presT{Kind: pAssertTypeOnly}, presT{Kind: pAssertNoType}, presT{Kind: pAssertWrongType})
 	for a := 0; a < 3; a++ {
 		ps = append(ps, presT{Kind: pAssert, A: a})
@@ -713,12 +1008,37 @@ func allPres() []presT {
 
 var crossKinds = []int{pXBasic, pXAssert, pXPost, pXPostID, pXDup}
 
-// drawPres: one of the 16 single-client presentations or (1 in 4) a cross-client one
+// drawForms: the concrete strings and wire encodings behind the abstract presentation
+func drawForms(r drv.Rand, p presT) presT {
+	p.BF, p.PF, p.IDF, p.AF = r.IntN(64), r.IntN(64), r.IntN(64), r.IntN(64)
+	if p.Kind == pBasic || p.Kind == pBoth || p.Kind == pNearID {
+		if p.Pct {
+			p.Enc = 1
+		} else if p.B >= sBlank || p.Kind == pNearID || r.Chance(1, 3) {
+			p.Enc = r.IntN(3)
+		}
+		p.Pct = p.Enc != 0
+	}
+	if r.Chance(1, 3) {
+		p.FEnc = 1 + r.IntN(2)
+	}
+	return p
+}
+
+// drawPres: one of the single-client presentations or (1 in 4) a cross-client one
 func drawPres(r drv.Rand) presT {
 	if r.Chance(1, 4) {
 		return presT{Kind: drv.Pick(r, crossKinds), VM: r.IntN(4), VG: r.Bool()}
 	}
-	return drv.Pick(r, allPres())
+	return drawForms(r, drv.Pick(r, allPres()))
+}
+
+// drawSecKind: mostly a plain stored secret
+func drawSecKind(r drv.Rand) int {
+	if r.Chance(1, 5) {
+		return 1 + r.IntN(len(secKindT)-1)
+	}
+	return 0
 }
 
 // drawPl: mostly everything in the body
@@ -769,8 +1089,12 @@ func randomCase(r drv.Rand) caseT {
 			c.Grant = r.IntN(6)
 		} else {
 			c.Grant = 6 + r.IntN(3)
+			if c.Grant == gUnknown && r.Chance(2, 3) { // a near miss of a dispatched grant_type, with that grant's artefact
+				c.GBase, c.GForm = r.IntN(6), 1+r.IntN(len(grantForms))
+			}
 		}
 	}
+	c.SecKind = drawSecKind(r)
 	// mostly-on configuration, each switch off with probability 1/4
 	c.Cfg = cfgT{!r.Chance(1, 4), !r.Chance(1, 4), !r.Chance(1, 4), !r.Chance(1, 4), !r.Chance(1, 4), !r.Chance(1, 4)}
 	c.Reg.Known = !r.Chance(1, 10)
@@ -782,19 +1106,22 @@ func randomCase(r drv.Rand) caseT {
 	if g := grantOf(c.Endpoint, c.Grant); g >= 0 {
 		c.Reg.Grants[g] = !r.Chance(1, 4)
 	}
+	if c.GForm > 0 {
+		c.Reg.Grants[c.GBase] = !r.Chance(1, 4)
+	}
 	c.Reg.HasKey = c.Reg.Meth == 2 && !r.Chance(1, 6) || c.Reg.Meth != 2 && r.Chance(1, 2)
 	// presentation: the one fitting the registration half of the time, anything otherwise
 	c.Pres = drawPres(r)
 	c.Pl = drawPl(r)
 	if r.Chance(1, 4) {
-		c.Prev = 1 + r.IntN(3)
+		c.Prev = 1 + r.IntN(4)
 	}
 	if r.Bool() {
 		switch c.Reg.Meth {
 		case 0:
-			c.Pres = presT{Kind: pBasic, Pct: r.Bool()}
+			c.Pres = drawForms(r, presT{Kind: pBasic, Pct: r.Bool()})
 		case 1:
-			c.Pres = drv.Pick(r, []presT{{Kind: pPost}, {Kind: pBasic}})
+			c.Pres = drawForms(r, drv.Pick(r, []presT{{Kind: pPost}, {Kind: pBasic}}))
 		case 2:
 			c.Pres = presT{Kind: pAssert}
 		default:
@@ -857,6 +1184,7 @@ func directed() []caseT {
 func systematic() []caseT {
 	allOn := cfgT{true, true, true, true, true, true}
 	var cs []caseT
+	rot := 0 // rotates through the concrete near-miss forms
 	type eg struct{ e, g int }
 	egs := []eg{{eToken, gCode}, {eToken, gRefresh}, {eToken, gCC}, {eToken, gBearer}, {eToken, gTE}, {eToken, gDevice},
 		{eIntrospect, gMissing}, {eRevoke, gMissing}, {eDeviceAuthz, gMissing}}
@@ -870,6 +1198,48 @@ func systematic() []caseT {
 					if meth != 3 {
 						cs = append(cs, caseT{Router: router, Endpoint: x.e, Grant: x.g, Cfg: allOn, Reg: rg, Pres: presT{Kind: pIDOnly}, Tag: "block=method_x_app"})
 					}
+				}
+			}
+			// (1b) every auth method with its fitting credential against: the grant at stake not registered; its provider flag /
+			// storage capability off; the flag of the client's own method off; the client's key missing
+			for meth := 0; meth < 4; meth++ {
+				base := regT{Known: true, Meth: meth, App: 0, Grants: full(), HasKey: meth == 2}
+				blk := func(cf cfgT, rg regT) {
+					cs = append(cs, caseT{Router: router, Endpoint: x.e, Grant: x.g, Cfg: cf, Reg: rg, Pres: fitting[meth], Tag: "block=method_x_refusal"})
+				}
+				if gg := grantOf(x.e, x.g); gg >= 0 {
+					rg := base
+					rg.Grants = full(gg)
+					blk(allOn, rg)
+					rg.Grants = [7]bool{} // registered for no grant at all
+					blk(allOn, rg)
+				}
+				off := allOn
+				switch grantOf(x.e, x.g) {
+				case gRefresh:
+					off.Refresh = false
+				case gCC:
+					off.CC = false
+				case gTE:
+					off.TE = false
+				case gDevice:
+					off.Dev = false
+				}
+				if off != allOn {
+					blk(off, base)
+				}
+				switch meth {
+				case 1:
+					off = allOn
+					off.Post = false
+					blk(off, base)
+				case 2:
+					off = allOn
+					off.PKJWT = false
+					blk(off, base)
+					rg := base
+					rg.HasKey = false
+					blk(allOn, rg)
 				}
 			}
 			for _, k := range crossKinds {
@@ -887,13 +1257,58 @@ func systematic() []caseT {
 			hollow := []presT{{Kind: pNone}, {Kind: pIDOnly}, {Kind: pBasic, B: 2}, {Kind: pPost, P: 2}, {Kind: pAssertTypeOnly}, {Kind: pAssertNoType}, {Kind: pAssertWrongType}}
 			for _, meth := range []int{0, 2, 3} {
 				for _, pr := range hollow {
-					for _, prev := range []int{0, 1, 2} {
+					for _, prev := range []int{0, 1, 2, 4} {
 						if prev == 2 && pr.Kind > pIDOnly {
 							continue
 						}
 						rg := regT{Known: true, Meth: meth, App: 0, Grants: full(), HasKey: true}
 						cs = append(cs, caseT{Router: router, Endpoint: x.e, Grant: x.g, Cfg: allOn, Reg: rg, Pres: pr, Prev: prev, Tag: "block=hollow_and_sequence"})
 					}
+				}
+				// right after X's own fully credentialed request: the same request with a wrong / blank / near-miss secret
+				// (what a result cache keyed by the client id alone, or a struct reused without reset, would let through)
+				for _, pr := range []presT{{Kind: pBasic, B: sWrong}, {Kind: pPost, P: sWrong}, {Kind: pBasic, B: sBlank, Enc: 2, Pct: true}, {Kind: pPost, P: sNear},
+					{Kind: pNearID, Slot: 1, B: sEmpty}, {Kind: pAssert, A: 1}} {
+					pr.BF, pr.PF, pr.IDF = rot, rot, rot
+					rot++
+					rg := regT{Known: true, Meth: meth, App: 0, Grants: full(), HasKey: true}
+					cs = append(cs, caseT{Router: router, Endpoint: x.e, Grant: x.g, Cfg: allOn, Reg: rg, Pres: pr, Prev: 4, Tag: "block=hollow_and_sequence"})
+				}
+			}
+			// (5) white space and near misses: for every auth method of X, in the Basic header and in the form, a secret that
+			// is white space only, a near miss of the right secret (accept side: must be refused like any wrong secret), a
+			// keyword-like wrong secret, and a near miss of X's id next to X's exact secret / with no secret. The concrete
+			// string and wire encoding rotate through all forms over the block.
+			for meth := 0; meth < 4; meth++ {
+				rg := regT{Known: true, Meth: meth, App: 0, Grants: full(), HasKey: meth == 2}
+				nm := func(p presT) {
+					p.BF, p.PF, p.IDF, p.AF = rot, rot, rot, rot
+					rot++
+					p.Pct = p.Enc != 0
+					cs = append(cs, caseT{Router: router, Endpoint: x.e, Grant: x.g, Cfg: allOn, Reg: rg, Pres: p, Tag: "block=near_miss"})
+				}
+				for enc := 0; enc < 3; enc++ {
+					nm(presT{Kind: pBasic, B: sBlank, Enc: enc})
+					nm(presT{Kind: pBasic, B: sNear, Enc: enc})
+					nm(presT{Kind: pNearID, Slot: 0, B: sRight, Enc: enc})
+					nm(presT{Kind: pPost, P: sBlank, FEnc: enc})
+					nm(presT{Kind: pPost, P: sNear, FEnc: enc})
+					nm(presT{Kind: pNearID, Slot: 1, B: []int{sRight, sEmpty, sRight}[enc], FEnc: enc})
+				}
+				nm(presT{Kind: pBasic, B: sWrong, Enc: rot % 3})
+				nm(presT{Kind: pPost, P: sWrong})
+				nm(presT{Kind: pBoth, B: sBlank, P: sBlank, Enc: rot % 3})
+				nm(presT{Kind: pNearID, Slot: 2, B: sEmpty})
+				nm(presT{Kind: pAssert, A: 2})
+				nm(presT{Kind: pAssertWrongType})
+			}
+			// (6) near misses of the grant_type value itself (other case, surrounding white space, keyword), with the artefact
+			// and the registration of the real grant and a fitting credential
+			if x.e == eToken {
+				for gf := 1; gf <= len(grantForms); gf++ {
+					rg := regT{Known: true, Meth: gf % 2 * 3, App: 0, Grants: full(), HasKey: true}
+					cs = append(cs, caseT{Router: router, Endpoint: eToken, Grant: gUnknown, GBase: x.g, GForm: gf, Cfg: allOn, Reg: rg,
+						Pres: fitting[rg.Meth], Tag: "block=near_miss_grant_type"})
 				}
 			}
 			// (3) where the parameters travel: one dimension moved at a time, client registered for the grant at
@@ -943,10 +1358,13 @@ func enumerate(r drv.Rand, emitCase func(caseT)) {
 						for _, p := range ps {
 							for flags := 0; flags < 8; flags++ {
 								for v := 0; v < 8; v++ { // v: known/registered/key/capability variants
-									c := caseT{Router: router, Endpoint: e, Grant: g, Pres: p, Pl: drawPl(r)}
+									c := caseT{Router: router, Endpoint: e, Grant: g, Pres: drawForms(r, p), Pl: drawPl(r), SecKind: drawSecKind(r)}
 									c.Pres.VM, c.Pres.VG = r.IntN(4), r.Bool()
 									if r.Chance(1, 4) {
-										c.Prev = 1 + r.IntN(3)
+										c.Prev = 1 + r.IntN(4)
+									}
+									if g == gUnknown && r.Chance(2, 3) {
+										c.GBase, c.GForm = r.IntN(6), 1+r.IntN(len(grantForms))
 									}
 									c.Cfg = cfgT{bits(flags, 0), bits(flags, 1), bits(flags, 2), r.Bool(), r.Bool(), r.Bool()}
 									capOn := bits(v, 0)
@@ -975,7 +1393,7 @@ func enumerate(r drv.Rand, emitCase func(caseT)) {
 								}
 							}
 							// unknown client: once per presentation
-							c := caseT{Router: router, Endpoint: e, Grant: g, Pres: p, Pl: drawPl(r), Cfg: cfgOf(r.IntN(64) | 7*r.IntN(2))}
+							c := caseT{Router: router, Endpoint: e, Grant: g, Pres: drawForms(r, p), Pl: drawPl(r), Cfg: cfgOf(r.IntN(64) | 7*r.IntN(2))}
 							c.Pres.VM, c.Pres.VG = r.IntN(4), r.Bool()
 							c.Reg = regT{Known: false, Meth: meth, App: app, HasKey: r.Bool()}
 							emitCase(c)
@@ -992,7 +1410,7 @@ func main() {
 	r := drv.NewRand(cfg.Seed)
 	shard := 0 // quick: spread over 16 coqc processes
 	if !cfg.Quick && cfg.N == 0 {
-		shard = 1000 // thorough: coqc needs ~0.6 GB per 1000 cases
+		shard = 500 // thorough: coqc needs ~1.2 GB per 1000 cases, 12 run at once
 	}
 	w := emit.NewWriter(cfg.Out, "C05_spec", shard, cfg.Only)
 
@@ -1022,8 +1440,8 @@ func main() {
 		enumerate(r, add)
 	}
 	err := w.Close(emit.Meta{Property: "C05", Tier: cfg.Tier, Seed: cfg.Seed, Exhaustive: exhaustive,
-		Extra: map[string]any{"primer_requests_not_answered_active": primerFailed},
-		Rule:  "one HTTP request per case against the Provider or the LegacyServer router over refstore, with an otherwise valid grant (code+PKCE, refresh token, device code, subject token, key-signed assertion) prepared in an emptied store for the case's client X - or, for the four cross-client presentations, for a second confidential client Y whose id the request mixes with X's valid credential; varied: registration (auth method, grant set, app type, key, known), presented credential (20 forms), grant_type (9), provider flags and storage capabilities (6 switches), endpoint (4); observed also: the client the answer acted for (owner of the created token / device code, of the revoked or active token). Both tiers: directed defect inputs + systematic blocks (router x endpoint/grant x auth method x application type with fitting credential and with client_id only; router x endpoint/grant x cross-client presentation). quick: + random draws (fitting credential half of the time); thorough: + the cross product, enumerating of the grant set only the membership of the grant at stake, of the six switches the three flags and the capability at stake, and drawing the application type. Non-trivial = model path class != 0 (the request got past the first guard of its handler); distinct = distinct (input, path class).",
+		Extra: map[string]any{"primer_requests_not_answered_active": primerFailed, "self_primer_requests": selfPrimers, "self_primer_requests_answered_2xx": selfPrimerOK},
+		Rule:  "one HTTP request per case against the Provider or the LegacyServer router over refstore, with an otherwise valid grant (code+PKCE, refresh token, device code, subject token, key-signed assertion) prepared in an emptied store for the case's client X - or, for the four cross-client presentations, for a second confidential client Y whose id the request mixes with X's valid credential; varied: registration (auth method, grant set, app type, key, known), presented credential (20 forms), grant_type (9), provider flags and storage capabilities (6 switches), endpoint (4); observed also: the client the answer acted for (owner of the created token / device code, of the revoked or active token). Both tiers: directed defect inputs + systematic blocks (router x endpoint/grant x auth method x application type with fitting credential and with client_id only; router x endpoint/grant x cross-client presentation). Round 5: secrets are right / wrong / empty / white space only / a near miss of the right one, ids exact or a near miss (surrounding white space, other case, case-fold twins, trailing slash, one byte more or fewer, keyword literals), each kind in many concrete strings and wire encodings (raw, %XX, + ; tags basic_secret, form_secret, id_form, basic_enc, form_enc), stored secrets plain / 1-4 KiB long / with white space or reserved characters (stored_secret), near misses of the grant_type value (grant_form), and cases that follow X's own fully credentialed request on the same endpoint (prev=self); blocks near_miss, near_miss_grant_type, method_x_refusal. quick: + random draws (fitting credential half of the time); thorough: + the cross product, enumerating of the grant set only the membership of the grant at stake, of the six switches the three flags and the capability at stake, and drawing the application type. Non-trivial = model path class != 0 (the request got past the first guard of its handler); distinct = distinct (input, path class).",
 	})
 	if err != nil {
 		fmt.Fprintln(os.Stderr, err)
